@@ -147,6 +147,48 @@ def check_file(chunks, independent, extra_calls):
     return fails
 
 
+def runtime_lines():
+    """a run-time error raised while a section is active - at the top level of the section under run(), or inside a
+    student function invoked later with call() - is located at its whole-file line"""
+    from pedal.source.sections import separate_into_sections, next_section
+    from pedal.source import verify
+    from pedal.sandbox.sandbox import Sandbox
+    fails = []
+    n = 0
+    for pad1, pad2 in [(0, 0), (2, 0), (3, 4), (1, 7)]:
+        lines = ['import math'] + ['# prologue %d' % i for i in range(pad1)]
+        lines += ['##### Part 1'] + ['a%d = %d' % (i, i) for i in range(pad2)] + ['first = 1']
+        lines += ['##### Part 2', 'def boom(x):', '    y = x + 1', '    return y / 0', 'value = 2']
+        boom_line = len(lines) - 1                  # 1-based line of `return y / 0`
+        lines += ['##### Part 3', 'z = 1', 'w = z / 0']
+        top_line = len(lines)
+        text = '\n'.join(lines) + '\n'
+        report = fresh(text)
+        separate_into_sections(independent=True, report=report)
+        next_section(report=report)
+        next_section(report=report)
+        verify(report=report)
+        sb = Sandbox(report=report)
+        sb.run()
+        n += 1
+        before = len(report.feedback)
+        sb.call('boom', 5)
+        got = [f.location.line for f in report.feedback[before:] if f.category == 'runtime' and f.location is not None]
+        if got != [boom_line]:
+            fails.append(('runtime_line', 'error inside a student function reached through call(): located at %r, whole-file '
+                          'line is %d (prologue %d, first section %d lines)' % (got, boom_line, pad1 + 1, pad2 + 1)))
+        next_section(report=report)
+        verify(report=report)
+        before = len(report.feedback)
+        sb.run()
+        n += 1
+        got = [f.location.line for f in report.feedback[before:] if f.category == 'runtime' and f.location is not None]
+        if got != [top_line]:
+            fails.append(('runtime_line', 'error at the top level of a section under run(): located at %r, whole-file line '
+                          'is %d' % (got, top_line)))
+    return fails, n
+
+
 def bounded(arg):
     quick = arg.get('tier') == 'quick'
     rnd = random.Random(arg.get('seed', 0) + 17)
@@ -171,7 +213,15 @@ def bounded(arg):
                 for what, detail in fails:
                     failures.append({'id': what, 'canon': what, 'detail': detail, 'file': build(chunks),
                                      'independent': independent})
-    return {'name': 'B-sections', 'bound': '%d file layouts of 0-%d marker lines over %d chunk texts (incl. empty, syntax error, '
+    try:
+        rfails, rn = runtime_lines()
+    except Exception as e:
+        rfails, rn = [('runtime_line', 'harness: %r' % e)], 0
+    evaluations += rn
+    distinct |= set(('runtime', i) for i in range(rn))
+    for what, detail in rfails:
+        failures.append({'id': what, 'canon': what, 'detail': detail})
+    return {'name': 'B-sections', 'bound': '8 run-time errors (top level under run(), student function under call()) in 4 sectioned files; %d file layouts of 0-%d marker lines over %d chunk texts (incl. empty, syntax error, '
             'no trailing newline), independent and cumulative, 1-2 calls past the end' % (len(layouts), 2 if quick else 3, len(CHUNKS)),
             'evaluations': evaluations, 'distinct_nontrivial': len(distinct),
             'rule': 'distinct = (number of chunks, mode, calls past the end, chunk texts)', 'samples': samples,
